@@ -37,7 +37,8 @@ Definition sb_facts_import_unchecked (F : sb_facts) : sb_facts :=
      sbf_hidden_globals := sbf_hidden_globals F; sbf_call_guard := sbf_call_guard F;
      sbf_getfield_checked := sbf_getfield_checked F; sbf_ref_get_checked := sbf_ref_get_checked F;
      sbf_indexer_noinit := sbf_indexer_noinit F; sbf_frame_inherit := sbf_frame_inherit F;
-     sbf_userfunc_unsafe := sbf_userfunc_unsafe F; sbf_var_import_checked := false; sbf_purity := sbf_purity F |}.
+     sbf_userfunc_unsafe := sbf_userfunc_unsafe F; sbf_var_import_checked := false; sbf_purity := sbf_purity F;
+     sbf_ctor_global := sbf_ctor_global F |}.
 Definition sb_n_u := Eval vm_compute in sb_enc "u".
 Definition sb_using_prog : sb_expr := SbVariable sb_n_password [SbVariable sb_n_u []].
 Definition sb_using_st : sb_st :=
@@ -72,7 +73,8 @@ Definition sb_facts_purity (F : sb_facts) (n : sb_name) (b : bool) : sb_facts :=
      sbf_getfield_checked := sbf_getfield_checked F; sbf_ref_get_checked := sbf_ref_get_checked F;
      sbf_indexer_noinit := sbf_indexer_noinit F; sbf_frame_inherit := sbf_frame_inherit F;
      sbf_userfunc_unsafe := sbf_userfunc_unsafe F; sbf_var_import_checked := sbf_var_import_checked F;
-     sbf_purity := sb_set_assoc n b (sbf_purity F) |}.
+     sbf_purity := sb_set_assoc n b (sbf_purity F);
+     sbf_ctor_global := sbf_ctor_global F |}.
 Definition sb_facts_impure (F : sb_facts) (n : sb_name) : sb_facts := sb_facts_purity F n false.
 Definition sb_n_intersection := Eval vm_compute in sb_enc "System#intersection".
 Definition sb_n_isect := Eval vm_compute in sb_enc "intersection".
@@ -91,3 +93,32 @@ Lemma sb_impure_native_writes_reachable :
   sb_protected (snd (sb_eval (sb_facts_purity sb_cur_facts sb_n_intersection true) 6 sb_filter_frame sb_isect_prog sb_isect_st))
     = sb_protected sb_isect_st.
 Proof. vm_compute. repeat split; try reflexivity. discriminate. Qed.
+
+(* finding "Application's destructor resets the process-global instance": VMOps::ConstructorCall has no sandbox test and
+   Application::~Application() does `m_Instance = nullptr` unconditionally.  On facts that flag IcingaApplication
+   ([sbf_ctor_global]) the sandboxed program `IcingaApplication()` - a filter any user with a query permission may send -
+   changes the external (process-global) component; on facts that flag nothing it changes nothing.  The shared heap
+   (values) is untouched either way: a value snapshot does not see the effect. *)
+Definition sb_facts_ctor (F : sb_facts) (l : list sb_name) : sb_facts :=
+  {| sbf_exprs := sbf_exprs F; sbf_cond_guards := sbf_cond_guards F; sbf_funcs := sbf_funcs F; sbf_cbguards := sbf_cbguards F; sbf_hidden := sbf_hidden F;
+     sbf_hidden_globals := sbf_hidden_globals F; sbf_call_guard := sbf_call_guard F;
+     sbf_getfield_checked := sbf_getfield_checked F; sbf_ref_get_checked := sbf_ref_get_checked F;
+     sbf_indexer_noinit := sbf_indexer_noinit F; sbf_frame_inherit := sbf_frame_inherit F;
+     sbf_userfunc_unsafe := sbf_userfunc_unsafe F; sbf_var_import_checked := sbf_var_import_checked F;
+     sbf_purity := sbf_purity F; sbf_ctor_global := l |}.
+Definition sb_t_IcingaApplication := Eval vm_compute in sb_enc "IcingaApplication".
+Definition sb_ctor_prog : sb_expr := SbFunctionCall (SbVariable sb_t_IcingaApplication []) [].
+Definition sb_ctor_st : sb_st := sb_st0 [(sb_t_IcingaApplication, SbVType sb_t_IcingaApplication)].
+(* the types the recorded finding is about: a flagged type outside this list is a NEW defect, not the known one *)
+Definition sb_known_ctor_global : list sb_name := [sb_t_IcingaApplication].
+Lemma sb_ctor_refuted :
+  let s' := snd (sb_eval (sb_facts_ctor sb_cur_facts [sb_t_IcingaApplication]) 4 sb_filter_frame sb_ctor_prog sb_ctor_st) in
+  sbs_extern s' = [sb_t_IcingaApplication] /\ sbs_shared s' = sbs_shared sb_ctor_st /\
+  sb_protected s' <> sb_protected sb_ctor_st /\
+  (exists v, fst (sb_eval (sb_facts_ctor sb_cur_facts [sb_t_IcingaApplication]) 4 sb_filter_frame sb_ctor_prog sb_ctor_st) = SbROk v) /\
+  sb_no_global_ctor (sb_facts_ctor sb_cur_facts [sb_t_IcingaApplication]) = false.
+Proof. vm_compute. repeat split; try reflexivity; [discriminate|eexists; reflexivity]. Qed.
+Lemma sb_ctor_fixed :
+  sb_protected (snd (sb_eval (sb_facts_ctor sb_cur_facts []) 4 sb_filter_frame sb_ctor_prog sb_ctor_st)) = sb_protected sb_ctor_st /\
+  sb_no_global_ctor (sb_facts_ctor sb_cur_facts []) = true.
+Proof. vm_compute. split; reflexivity. Qed.
